@@ -77,6 +77,26 @@ func ExecutePlan(env *build.Env, plan *graphql.Plan, vars map[string]interface{}
 	return &Run{Entry: "ExecutePlan", Result: res, Events: env.Log.Snapshot()}
 }
 
+// ViaCache serves the request the way PlanCache's documentation describes:
+// cache.Get, then ExecutePlan with the caller's variables merged with the
+// synthetic ones. Errors of Get become a result without data.
+func ViaCache(env *build.Env, cache *graphql.PlanCache, text, opName string, vars map[string]interface{}, o *values.Outcomes, ctx context.Context) *Run {
+	begin(env, o)
+	pr := cache.Get(&env.Schema, text, opName)
+	if len(pr.Errors) > 0 || pr.Plan == nil {
+		return &Run{Entry: "PlanCache.Get", Result: &graphql.Result{Errors: pr.Errors}, Events: env.Log.Snapshot()}
+	}
+	args := map[string]interface{}{}
+	for k, v := range vars {
+		args[k] = v
+	}
+	for k, v := range pr.SynthArgs {
+		args[k] = v
+	}
+	res := graphql.ExecutePlan(pr.Plan, graphql.ExecuteParams{Schema: env.Schema, Args: args, Context: ctx})
+	return &Run{Entry: "PlanCache.Get+ExecutePlan", Result: res, Events: env.Log.Snapshot()}
+}
+
 // Resolves filters the resolve events.
 func Resolves(evs []build.Event) []build.Event {
 	var out []build.Event
@@ -129,6 +149,9 @@ func canon(b *strings.Builder, v interface{}) {
 	case int:
 		fmt.Fprintf(b, "int(%d)", x)
 	case float64:
+		if x == 0 {
+			x = 0 // the sign of a zero is not part of any property checked here
+		}
 		fmt.Fprintf(b, "float(%v)", x)
 	case bool:
 		fmt.Fprintf(b, "%v", x)
